@@ -144,8 +144,9 @@ class Wiretap:
                 a, e = (keys['ai'], keys['ei']) if probe_from_initiator else (keys['ar'], keys['er'])
                 try:
                     R.sk_open(probe_data, suite, a, e)
-                except R.DecodeError:
-                    continue
+                except R.DecodeError as ex:
+                    if getattr(ex, 'kind', 'keys') not in ('icv_only', 'plaintext'):
+                        continue          # (icv_only / plaintext: the keys fit, the message construction deviates - reported later)
                 s = Session(spi_i, spi_r)
                 s.keys, s.suite, s.ni, s.nr, s.shared = keys, suite, ni, nr, shared
                 s.init_req, s.init_res = req_raw, res_raw
@@ -214,6 +215,11 @@ class Wiretap:
                     s.keys, s.alt_keys, s.rfc_deviation = alt, None, 'skeyseed_new_prf'
                     self._note_keys(s, f'ike.gen{s.generation}.alt')
                     return self._protected(meta, data, h)
+            kind = getattr(ex, 'kind', 'keys')
+            if kind in ('icv_only', 'plaintext', 'cleartext_beside_sk'):
+                # the keys are demonstrably right: what deviates is the construction of the protected message itself (C07)
+                return self.problem('protected_message_malformed', f'{sender}: protected exchange {h["exch"]} id {h["id"]} of IKE_SA '
+                                    f'{h["spi_i"].hex()[:8]}: {ex}', meta, what=kind)
             return self.problem('cannot_open_protected_message', f'{sender}: protected {R.PNAMES.get(h["next"], h["next"])} exchange {h["exch"]} id {h["id"]} '
                                 f'of IKE_SA {h["spi_i"].hex()[:8]} (generation {s.generation}) fails under the reference keys: {ex}', meta,
                                 stage='later', generation=min(s.generation, 2))
